@@ -38,6 +38,44 @@ RULE = ("render cases: (species tree, object tree with names/colours/syntenies, 
         "non-trivial = at least two words and more than one line; escape cases: every string up to length 5 over {a,_,\\,{,}} plus random strings, "
         "non-trivial = contains an underscore or a backslash")
 OPEN_GOALS: list = []
+def _wrap_sweep(args):
+    """all word-length patterns of one length class against the wrapping clauses (implementation + oracle only)"""
+    import itertools
+    n, first = args
+    I = _impl()
+    bad = None
+    for rest in itertools.product([1, 2, 4, 8, 9], repeat=n - 1):
+        words = ["abcdefghi"[:k] for k in (first,) + rest]
+        flat = " ".join(words)
+        for width in range(1, 11):
+            try:
+                shown = I["text"].balanced_wrap(flat, width)
+            except Exception as e:  # noqa: BLE001
+                return [words, width], f"balanced_wrap raised {type(e).__name__}"
+            ok, why = o_wrapped_ok(shown, flat, width, "\n")
+            if not ok:
+                return [words, width], why
+    return bad
+
+
+def search(ctx):
+    """the tie is broken but no clause fails on the generated cases: an exhaustive sweep of the wrapping clauses over
+    every list of up to 6 words with lengths in {1,2,4,8,9} and every width 1..10 (the implementation judged by the
+    property's own oracle)"""
+    import multiprocessing as mp
+    from ..core import Finding, NPROC
+    jobs = [(n, first) for n in range(1, 7) for first in (1, 2, 4, 8, 9)]
+    with mp.get_context("fork").Pool(NPROC) as pool:
+        for res in pool.imap_unordered(_wrap_sweep, jobs):
+            ctx.evaluations += 1
+            if res is not None:
+                case, why = res
+                ctx.notes.append("failing-input search: wrapping clause violated on an exhaustive sweep of short word lists")
+                return Finding("wrap", case, None, "(wrapping clauses)", False, why)
+    ctx.notes.append("failing-input search: exhaustive sweep of short word lists (<= 6 words, lengths 1,2,4,8,9, widths 1-10): no clause fails")
+    return None
+
+
 TECHNIQUE = ("Coq proofs over hand-written models of escape / wrapping / colour propagation / interning; kernel computation over the template list "
              "regenerated from render/tikz.py on every run, lifted by a proved soundness lemma; models and templates tied to the code by "
              "differential testing evaluated with vm_compute, with a text-level oracle written from the property")
